@@ -839,6 +839,9 @@ struct Live {
 	state: State,
 	model: MState,
 	traces: Rc<RefCell<Vec<String>>>,
+	/// paths whose non-UTF-8 bytes this state may legitimately keep cached (read through `importbin`, or in any
+	/// way other than a failed direct `import`/`importstr` of that very file)
+	invalid_legit: BTreeSet<String>,
 }
 
 /// Values in logs: byte arrays are shown as text so that run-specific paths inside file
@@ -1068,6 +1071,7 @@ impl C07M1 {
 								..Default::default()
 							},
 							traces,
+							invalid_legit: BTreeSet::new(),
 						},
 					);
 					rec.event(format!("op{opi} new-state {state} libs={libs:?}"));
@@ -1282,6 +1286,50 @@ impl C07M1 {
 							"ok-despite-fault",
 							format!("op{opi}: an injected failure fired ({fired:?}) but the operation returned {actual_desc}"),
 						);
+					}
+
+					// ---- a failed read must not stick (oracle 6): "retries once a resolver failure has cleared behave
+					// as in a fresh state". A direct `import`/`importstr` of P that fails because the bytes read were not
+					// UTF-8 caches nothing; so when a later direct import of P reports "not valid utf-8" *without reading
+					// P*, although the disk now holds valid text, the earlier failure was served from memory.
+					{
+						let root_path: Option<String> = oplog.iter().find_map(|ev| match ev {
+							LogEv::Resolve { out: Ok(p), .. } => Some(p.clone()),
+							_ => None,
+						});
+						let is_invalid = |out: &Result<(usize, bool), Class>| matches!(out, Ok((c, bad)) if *bad || std::str::from_utf8(&rendered[*c]).is_err());
+						let bad_utf8_about = |p: &str| match &actual {
+							Err(e) => error_class(e) == "BadUtf8" && format!("{}", e.error()).contains(&format!("{p}\"")),
+							Ok(_) => false,
+						};
+						let direct_text_import = entry.kind != Kind::Bin;
+						let mut first_load = true;
+						for ev in &oplog {
+							if let LogEv::Load { path, out, .. } = ev {
+								if is_invalid(out) {
+									let failed_direct = first_load && direct_text_import && root_path.as_deref() == Some(path.as_str()) && bad_utf8_about(path);
+									if !failed_direct {
+										l.invalid_legit.insert(path.clone());
+									}
+								}
+								first_load = false;
+							}
+						}
+						if let Some(p) = &root_path {
+							let read_now = oplog.iter().any(|ev| matches!(ev, LogEv::Load { path, .. } if path == p));
+							let disk_valid = shared.borrow().disk.fs.files.get(p).is_some_and(|c| std::str::from_utf8(&rendered[*c]).is_ok());
+							if direct_text_import && bad_utf8_about(p) && !read_now && disk_valid && !l.invalid_legit.contains(p) {
+								rec.violate(
+									"failed-read-sticks",
+									"bad-utf8-served-from-memory",
+									format!(
+										"op{opi} {} on state {state}: reported `{}` without reading {p}, whose contents on disk are valid text and which this state never read through importbin: an earlier failed read was kept",
+										snippet_for(entry),
+										actual_desc
+									),
+								);
+							}
+						}
 					}
 
 					// ---- at-most-once over the seam log (oracle 3)
